@@ -13,7 +13,9 @@ GROUPS = {
     'ival': ['ival_add', 'ival_sub', 'ival_neg_abs', 'ival_scale', 'ival_div_by', 'ival_sums_never_nan', 'ival_intersection', 'ival_from_variable_type', 'ival_required_bounds', 'ival_reach_witness'],
     'stdk': ['fpred_consistent_order', 'stdk_equality_constraint_normalised', 'stdk_reach_witness'],
     'tab': ['tab_step_2x3'],
+    'span': ['span_text_total', 'span_reach_witness'],
 }
+STUBBING = {'span'}   # groups whose harnesses use #[kani::stub] (listed in the evidence as stubs)
 
 
 def arith_harnesses():
@@ -34,6 +36,7 @@ def functions_encoded(group):
         'ival': ['Bounds::{add,sub,neg,scale,div_by,abs,intersection,from_variable_type}', 'lower_sum', 'upper_sum', 'required_bounds'],
         'stdk': ['float_{eq,ne,lt,gt,le,ge}', 'EqualityConstraint::new'],
         'tab': ['Tableau::step (find_h, find_t, pivot) from a symbolic canonical 2x3 tableau'],
+        'span': ['InputSpan::span_text (alloc::fmt::format stubbed)'],
         'arith': ['<i64/u64/f64/bool as ApplyOp>::{apply_binary_op, apply_unary_op}', 'checked_i64', 'checked_u64', 'checked_div', 'Primitive::{as_integer_cast, as_usize_cast}'],
     }[group]
 
@@ -50,6 +53,8 @@ def run_group(group, timeout_s=900, mem_gb=24, jobs=16, playback=True):
         os.makedirs(target, exist_ok=True)
         env = dict(os.environ, ROOC_VERIF_KANI_DIR=KANI_DIR, CARGO_NET_OFFLINE='true')
         cmd = ['cargo', 'kani', '--features', 'verif-hooks', '--target-dir', target, '--no-overflow-checks']
+        if group in STUBBING:
+            cmd += ['-Z', 'stubbing']
         if len(names) > 2:
             cmd += ['-j', str(min(jobs, len(names))), '--output-format', 'terse']
         for n in names:
@@ -67,7 +72,7 @@ def run_group(group, timeout_s=900, mem_gb=24, jobs=16, playback=True):
             res['status'] = 'violation'
             res['failed'] = real_failed
             if playback:
-                res['playback'] = {n: concrete_playback(crate, env, target, n) for n in real_failed[:4]}
+                res['playback'] = {n: concrete_playback(crate, env, target, n, group in STUBBING) for n in real_failed[:4]}
         elif missing or witness_bad:
             res['status'] = 'inconclusive'
             res['why'] = {'no_verdict': missing, 'vacuity_witness_not_failed': witness_bad}
@@ -122,10 +127,12 @@ def parse_log(log, names):
 IGNORED_FP_FLAG = set()
 
 
-def concrete_playback(crate, env, target, harness):
+def concrete_playback(crate, env, target, harness, stubbing=False):
     """ask Kani for the concrete counterexample of one failing harness and replay it natively (dev profile)"""
     try:
         cmd = ['cargo', 'kani', '--features', 'verif-hooks', '--target-dir', target, '--no-overflow-checks', '-Z', 'concrete-playback', '--concrete-playback=print', '--harness', harness]
+        if stubbing:
+            cmd += ['-Z', 'stubbing']
         p = subprocess.run(['bash', '-c', 'exec timeout 600 ' + ' '.join(cmd)], cwd=crate, env=env, capture_output=True, text=True)
         out = p.stdout
         m = re.search(r'(#\[test\]\s*fn (kani_concrete_playback_\w+)\(\)[\s\S]*?\n\}\n)', out)
@@ -141,7 +148,7 @@ def concrete_playback(crate, env, target, harness):
             if re.search(r'\bfn %s\b' % harness, src) or ('%s,' % harness) in src:
                 open(os.path.join(kd, f), 'a').write('\n' + test_src)
         env2 = dict(env, ROOC_VERIF_KANI_DIR=kd)
-        p2 = subprocess.run(['bash', '-c', 'exec timeout 900 cargo kani playback -Z concrete-playback --features verif-hooks -- %s' % test_name], cwd=crate, env=env2, capture_output=True, text=True)
+        p2 = subprocess.run(['bash', '-c', 'exec timeout 900 cargo kani playback -Z concrete-playback %s--features verif-hooks -- %s' % ('-Z stubbing ' if stubbing else '', test_name)], cwd=crate, env=env2, capture_output=True, text=True)
         txt = p2.stdout + p2.stderr
         failed = bool(re.search(r'test result: FAILED|panicked at', txt))
         msg = re.findall(r'panicked at[^\n]*\n[^\n]*', txt)[:1]
